@@ -11,22 +11,29 @@ this script regenerates from the headers.  It works on clang's JSON AST *after t
  2. a second TU explicitly instantiates every one of those classes (so every member function body exists) and calls the
     const member templates that explicit instantiation does not instantiate (heterogeneous find/contains/...);
     clang dumps the declarations of namespace amc only (-ast-dump-filter=amc::, never the whole TU);
- 3. every function body found is analysed in one of three roles:
-      const    const non-static member function: `this` is shared with other readers
-      helper   constructors/destructors, functions taking a container by const reference (comparison operators ...),
-               and everything in amc reachable from the previous two: `this` (if any) is private, what comes in by
-               const reference / pointer-to-const is shared
-      mutator  the remaining functions: only checked for global state (two writers on DISTINCT containers)
+ 3. every function body found is analysed, given which of its inputs designate memory that other threads may be
+    reading ("shared"): for a const non-static member function `this` and everything that comes in by reference /
+    pointer to const; for a non-const function what comes in by reference to const of one of amc's classes (copy
+    constructors, copy assignments, comparison operators).  What a function passes on to another amc function
+    (object, arguments; constructors are matched by class name and signature) makes the corresponding parameter of the
+    callee shared there - a fixpoint over the call graph; a read-only view (a `const int&` key, a `const T*`) is
+    propagated as such and only matters where a cast drops const.  Roles in the table:
+      const    const member function                      helper   non-const function that receives shared memory
+      mutator  receives nothing shared: only checked for global state (two writers on DISTINCT containers)
+      class    one entry per class: its mutable data members
     A *write site* is
-      W1 assignment / compound assignment / ++ / -- whose lvalue is rooted in shared memory
-         (this, a member, a global, something reached through a shared pointer)
+      W1 assignment / compound assignment / ++ / -- whose lvalue designates shared memory or a global
+         (this->m, *this->p, p[i] for a local alias p of shared memory, ...); a local variable itself is private
       W2 a call of a non-const member function on such an object
-      W3 const_cast (and C-style / reinterpret casts that drop const) of something that is not private
-      W4 a function-local static that is neither constexpr nor const; a write to a namespace-scope variable
-      W5 a `mutable` data member (reported per class, attached to each entry of that class)
-      W6 a pointer-to-non-const (or non-const lvalue) obtained from shared memory (a `T*` member, the result of a const
-         member returning `T*`/`T&`) that is not immediately converted to pointer-to-const / read / compared:
-         passing it to any function, storing it, capturing it is an escape.  This is what makes "calls into std::
+      W3 a cast that drops const (const_cast, C-style, reinterpret) of something shared: treated as a W6 source; W1/W2
+         see through it, so `const_cast<X*>(this)->n = 0` is a W1 site
+      W4 a function-local static that is neither constexpr nor const (and every write to it); a write to a
+         namespace-scope variable
+      W5 a `mutable` data member
+      W6 a write-granting value into shared memory (a `T*` member read in a const member - the language does not make
+         the pointee const -, the result of a const member returning `T*`/`T&`, a W3 cast) that is not immediately
+         converted to pointer-to-const / read / compared / returned: stored, captured, or passed to a function outside
+         amc (inside amc the parameter becomes shared in the callee and is analysed there).  This is what makes "std::
          algorithms only write through what they are given" sufficient: nothing writable and shared is ever given.
  4. completeness: every const member function (or const member function template) of a class template that has an
     instantiation in the TU must have at least one analysed body; otherwise it is listed in "errors".
